@@ -4,6 +4,7 @@ package wazero
 
 import (
 	experimentalsys "github.com/tetratelabs/wazero/experimental/sys"
+	"github.com/tetratelabs/wazero/internal/sysfs"
 	"github.com/tetratelabs/wazero/internal/verifrt"
 )
 
@@ -202,4 +203,30 @@ func VerifC19_RuntimeConfig() {
 		s0.dwarfDisabled == base.dwarfDisabled && s0.storeCustomSections == base.storeCustomSections && s0.ensureTermination == base.ensureTermination && s0.cache == base.cache,
 		"With... leaves its receiver unchanged")
 	verifrt.Cover("runtime")
+}
+
+// VerifC17_ReadOnlyConfig: a configuration that mounts a directory read-only keeps mounting the read-only wrapper whatever
+// is derived from it afterwards (another mount of any guest path, colliding or not, read-only or writable).
+func VerifC17_ReadOnlyConfig() {
+	ro := NewFSConfig().WithReadOnlyDirMount("/host/dir", verifGuestPath("roPath"))
+	hist := verifrt.Choose("hist", 2)
+	if hist == 1 {
+		ro = ro.WithReadOnlyDirMount("/host/other", "other")
+	}
+	// derive something else from it; the result is never used
+	switch verifrt.Choose("derive", 3) {
+	case 0:
+		_ = ro.WithDirMount("/host/dir", verifGuestPath("p"))
+	case 1:
+		_ = ro.(*fsConfig).WithSysFSMount(&verifFS{id: 1}, verifGuestPath("p"))
+	case 2:
+		_ = ro.WithReadOnlyDirMount("/host/dir2", verifGuestPath("p"))
+	}
+	fs, paths := ro.(*fsConfig).preopens()
+	verifrt.Assert(len(fs) == 1+hist && len(paths) == 1+hist, "the read-only configuration still has exactly its mounts")
+	for i := range fs {
+		_, isRO := fs[i].(*sysfs.ReadFS)
+		verifrt.Assert(isRO, "every mount of the read-only configuration is still the read-only wrapper")
+	}
+	verifrt.Cover("ro-config")
 }
